@@ -2,11 +2,15 @@ use super::*;
 #[kani::proof]
 #[kani::unwind(4)]
 fn s7_csr_incoming_on_edge_free_segment() {
-    // exactly what build_segment_from_runs returns for an edge-free compaction
     let seg = CsrSegment { id: SegmentId(1), meta_page_id: 0, min_src: 0, max_src: 0, min_dst: 0, max_dst: 0,
         offsets: vec![0, 0], edges: Vec::new(), in_offsets: Vec::new(), in_edges: Vec::new() };
     let dst: u32 = kani::any();
     let n = seg.incoming_neighbors(dst, None).count();
     std::mem::forget(seg);
     assert!(n == 0);
+}
+pub(crate) fn make_meta(o: &[u64], e: &[u64], io: &[u64], ie: &[u64]) -> [u8; PAGE_SIZE] {
+    let mut out = [0u8; PAGE_SIZE];
+    encode_meta(&mut out, SegmentId(1), 0, 0, 0, 0, 2, 1, 2, 1, o, e, io, ie).unwrap();
+    out
 }
